@@ -52,7 +52,18 @@ def g_harness(rep, cfg, modpath, name, fn, body, bounds, backend=None, replay_ki
                 if replay_kind and "replay" not in rec:
                     ok, det = native_replay(cfg, replay_kind, model or {}, dict(it.digits), replay_points)
                     rec["replay"] = det; rec["reproduced"] = ok
+                elif getattr(it, "extra_replay", None) and "replay" not in rec:
+                    ok, det = it.extra_replay(model or {}); rec["replay"] = det; rec["reproduced"] = ok
             elif v != "unsat" and status == "ok": status = "inconclusive"; rec["why"] = "solver verdict " + v
+        for gname, viol in getattr(it, "extra_goals", []):
+            v, model, dt, info = pr.check(viol, timeout_s=60, split=False)
+            rec["goals"].append(dict(goal=gname, verdict=v, solver_s=round(dt, 3), kind="QF_LIA", **info))
+            if v == "sat" and status == "ok":
+                status = "violation"; rec["why"] = gname + " fails: " + str({k: model[k] for k in sorted(model or {})[:40]})[:300]
+                rp = getattr(it, "extra_replay", None)
+                if rp:
+                    ok, det = rp(model or {}); rec["replay"] = det; rec["reproduced"] = ok
+            elif v not in ("sat", "unsat") and status == "ok": status = "inconclusive"; rec["why"] = "solver verdict " + v
         for n in notes: rec["goals"].append(dict(goal=n[0], verdict="unsat" if n[1] else "sat", solver_s=0.0, cases=1, solver_calls=0, kind="structural"))
         if any(not n[1] for n in notes): status = "violation"; rec["why"] = "structural condition failed: %s" % [n[0] for n in notes if not n[1]]
         elif status == "violation" and rec.get("reproduced") is False:
@@ -199,6 +210,24 @@ def native_replay(cfg, kind, model, digits, npoints, has_base=False):
         if got is None: return None, "native runner does not know " + fn
         if got != compress_py(exp): return True, dict(native_call=fn, args=[a.hex() for a in args], native_result=got.hex(), specification=compress_py(exp).hex())
     return False, "none of %d concrete candidate inputs reproduces the digit-level counterexample on the natively built code" % len(cands)
+
+def clamped_replay(cfg, fn, model):
+    """native replay for the clamped entry points: the model's bytes (and a few structured strings) against clamp(k)*P by the specification's arithmetic"""
+    from vp import native
+    from llsym import fconst
+    Bpt = (fconst.BX, fconst.BY); P3 = fconst.ed_mul(3, Bpt)
+    cands = [bytes(int(model.get("k%d" % i, 0)) & 255 for i in range(32)), bytes([255] * 32), bytes(32), bytes([8] + [0] * 30 + [64]), bytes(range(7, 39))]
+    name = "g_ed_mul_clamped" if fn == "vp_g_ed_mul_clamped" else "g_ed_mul_base_clamped"
+    calls = [(name, [compress_py(P3), k] if name == "g_ed_mul_clamped" else [k]) for k in cands]
+    try: outs = native.run(cfg, calls)
+    except Exception as e: return None, "native runner failed: " + str(e)[:200]
+    for k, got in zip(cands, outs):
+        if isinstance(got, tuple): return True, dict(native_call=name, args=[k.hex()], native_result="PANIC " + got[1][:200])
+        if got is None: return None, "native runner does not know " + name
+        c = int.from_bytes(k, "little"); c = (c & ((1 << 255) - 1) & ~7) | (1 << 254)
+        exp = fconst.ed_mul(c % fconst.L, P3 if name == "g_ed_mul_clamped" else Bpt)
+        if got != compress_py(exp): return True, dict(native_call=name, args=[k.hex()], native_result=got.hex(), specification=compress_py(exp).hex())
+    return False, "none of %d concrete byte strings reproduces the counterexample on the natively built code" % len(cands)
 
 def lemma_onehot(lo, hi):
     """finite identity behind fold_indicators: for d in [lo, hi]:  d == sum_{v != 0} v * [d == v]   (solver, one query per range)"""
@@ -368,6 +397,26 @@ def vartime_harnesses(rep, cfg, modpath, tier, backend=None):
             return it.get(out), G.base("A").scale(spec_naf(it, "a", 5)) + G.base("B").scale(spec_naf(it, "b", wb)), []
         T.append(lambda b_vdb=b_vdb, wname=wname, win=win: g_paths_harness(rep, cfg, modpath, pre + "vartime_double_base::mul [%s]" % wname, "vartime_double_scalar_mul_basepoint", b_vdb,
                  "symbolic point A; a, b: " + wname, backend=backend, window=win, replay_kind="vartime_double"))
+        if not backend and win is win_q:
+            def b_rvdb(it):
+                A = it.point("A"); a = it.scalar("a"); b = it.scalar("b"); out = it.new_region("out", 4 * it.fs)
+                it.call("vp_g_ris_vartime_double", [out, a, A, b])
+                wb = 8 if ("b", "naf8") in it.digits else 5
+                return it.get(out), G.base("A").scale(spec_naf(it, "a", 5)) + G.base("B").scale(spec_naf(it, "b", wb)), []
+            T.append(lambda b_rvdb=b_rvdb, wname=wname, win=win: g_paths_harness(rep, cfg, modpath, "RistrettoPoint::vartime_double_scalar_mul_basepoint [%s]" % wname, "RistrettoPoint::vartime_double_scalar_mul_basepoint", b_rvdb,
+                     "symbolic point A; a, b: " + wname, window=win))
+            def b_rvms(it):
+                n = 2; out = it.new_region("out", 4 * it.fs); sc = it.new_region("scalars", 32 * n); pts = it.new_region("points", 4 * it.fs * n)
+                for i in range(n):
+                    so = gsym.ScalarObj("s%d" % i)
+                    for k in range(32): it.regions[sc.r].b[32 * i + k] = (so, k, 32)
+                    it.put(Ptr(pts.r, 4 * it.fs * i), G.base("P%d" % i), 4 * it.fs)
+                it.call("vp_g_ris_vartime_multiscalar_mul", [out, sc, Poly.const(n), pts, Poly.const(n)])
+                exp = G()
+                for i in range(n): exp = exp + G.base("P%d" % i).scale(spec_naf(it, "s%d" % i, 5))
+                return it.get(out), exp, []
+            T.append(lambda wname=wname, win=win: g_paths_harness(rep, cfg, modpath, "RistrettoPoint::vartime_multiscalar_mul n=2 [%s]" % wname, "RistrettoPoint::vartime_multiscalar_mul", b_rvms,
+                     "symbolic points; scalars: " + wname, window=win))
         def mk_vs(n):
             def b(it):
                 out = it.new_region("out", 4 * it.fs); sc = it.new_region("scalars", 32 * n); pts = it.new_region("points", 4 * it.fs * n)
@@ -449,6 +498,66 @@ def harnesses(rep, cfg, modpath, tier):
         return b
     for k in (1, 2, 3, 4, 5, 6, 7, 8):
         H("mul_by_pow_2(%d)" % k, "vp_g_mul_by_pow_2", mk_pow2(k), bounds="symbolic point")
+    # the clamped entry points: clamp_integer runs as real code on 32 symbolic bytes; the recoded scalar is the clamped integer (< 2^255)
+    def mk_clamped(fn, base):
+        def b(it):
+            from checks.c07g import spec_clamped, byte_int
+            P = it.point("P") if base is None else None
+            sp = it.new_region("bytes", 32); sb = [it.ctx.input("k%d" % i, 0, 255) for i in range(32)]
+            for i in range(32): it.store(Ptr(sp.r, i), sb[i], 1)
+            out = it.new_region("out", 4 * it.fs)
+            it.call(fn, [out, P, sp] if base is None else [out, sp])
+            tags = sorted(it.byte_scalars)
+            notes = [("exactly one scalar is recoded", len(tags) == 1 and len(it.digits) == 1)]
+            if len(tags) != 1 or len(it.digits) != 1: return it.get(out), G(), notes
+            (tag, kind), = it.digits.keys()
+            val = byte_int(it.byte_scalars[tag])
+            it.extra_goals = [("the recoded scalar is the RFC 7748 clamped integer of the input bytes (bits 0,1,2,255 clear, bit 254 set)", Cond("cmp", "ne", val, spec_clamped(sb, it))),
+                              ("it is below 2^255 (domain of the recoding certificate)", Cond("cmp", "gt", it.byte_scalars[tag][31], Poly.const(127)))]
+            it.extra_replay = lambda model: clamped_replay(cfg, fn, model)
+            return it.get(out), G.base("P" if base is None else base).scale(spec_scalar(it, tag, kind)), notes
+        return b
+    CB = "all 2^256 byte strings (clamped by the real code), all digit vectors of the recoding; symbolic base point"
+    H("EdwardsPoint::mul_clamped", "vp_g_ed_mul_clamped", mk_clamped("vp_g_ed_mul_clamped", None), bounds=CB)
+    H("EdwardsPoint::mul_base_clamped", "vp_g_ed_mul_base_clamped", mk_clamped("vp_g_ed_mul_base_clamped", "B"), bounds=CB)
+    # Ristretto wrappers (RistrettoPoint is a transparent wrapper of EdwardsPoint: the same linear forms) and Sum
+    def mk_ris(fn, base, kind):
+        def b(it):
+            s = it.scalar("s"); out = it.new_region("out", 4 * it.fs)
+            if base is None:
+                P = it.point("P"); it.call(fn, [out, P, s])
+            else: it.call(fn, [out, s])
+            ks = [k for (t, k) in it.digits if t == "s"]
+            return it.get(out), G.base("P" if base is None else "B").scale(spec_scalar(it, "s", ks[0])), [("one recoding of s", len(ks) == 1)]
+        return b
+    H("&RistrettoPoint * &Scalar", "vp_g_ris_mul", mk_ris("vp_g_ris_mul", None, None))
+    H("&Scalar * &RistrettoPoint", "vp_g_ris_mul_rev", mk_ris("vp_g_ris_mul_rev", None, None))
+    H("RistrettoPoint::mul_base", "vp_g_ris_mul_base", mk_ris("vp_g_ris_mul_base", "B", None))
+    H("&RISTRETTO_BASEPOINT_TABLE * &Scalar", "vp_g_ris_table_mul", mk_ris("vp_g_ris_table_mul", "B", None))
+    def mk_ris_ms(n):
+        def b(it):
+            out = it.new_region("out", 4 * it.fs); sc = it.new_region("scalars", 32 * n); pts = it.new_region("points", 4 * it.fs * n)
+            for i in range(n):
+                so = gsym.ScalarObj("s%d" % i)
+                for k in range(32): it.regions[sc.r].b[32 * i + k] = (so, k, 32)
+                it.put(Ptr(pts.r, 4 * it.fs * i), G.base("P%d" % i), 4 * it.fs)
+            it.call("vp_g_ris_multiscalar_mul", [out, sc, Poly.const(n), pts, Poly.const(n)])
+            exp = G()
+            for i in range(n): exp = exp + G.base("P%d" % i).scale(spec_scalar(it, "s%d" % i, "r16"))
+            return it.get(out), exp, []
+        return b
+    H("RistrettoPoint::multiscalar_mul n=2", "vp_g_ris_multiscalar_mul", mk_ris_ms(2))
+    def mk_sum(fn, n):
+        def b(it):
+            out = it.new_region("out", 4 * it.fs); pts = it.new_region("points", 4 * it.fs * max(n, 1)); exp = G()
+            for i in range(n):
+                it.put(Ptr(pts.r, 4 * it.fs * i), G.base("P%d" % i), 4 * it.fs); exp = exp + G.base("P%d" % i)
+            it.call(fn, [out, pts, Poly.const(n)])
+            return it.get(out), exp, []
+        return b
+    for n in (0, 1, 3):
+        H("EdwardsPoint: Sum over %d points" % n, "vp_g_ed_sum", mk_sum("vp_g_ed_sum", n), bounds="symbolic points")
+        H("RistrettoPoint: Sum over %d points" % n, "vp_g_ris_sum", mk_sum("vp_g_ris_sum", n), bounds="symbolic points")
     def b_cof(it):
         P = it.point("P"); out = it.new_region("out", 4 * it.fs)
         it.call("vp_g_mul_by_cofactor", [out, P]); return it.get(out), G.base("P").scale(8), []
